@@ -133,9 +133,12 @@ CHECKS["C20"] = dict(
         [ob("VH_C20_decode_stat", dict(N=n), Q, pkg=TYPES, covers=(["rejected"] if n > 0 else []) + (["accepted"] if n != 1 else []), bounds="all byte strings of length %d" % n) for n in range(0, 4)] +
         [ob("VH_C20_decode_packet", dict(N=n), T, pkg=TYPES, covers=["rejected", "accepted"], bounds="all byte strings of length %d" % n) for n in (4, 5)] +
         [ob("VH_C20_decode_stat", dict(N=n), T, pkg=TYPES, covers=["rejected", "accepted"], bounds="all byte strings of length %d" % n) for n in (4, 5)] +
-        [ob("VH_C20_framing", dict(D1=0, D2=0, ID=0), pkg=UTIL, covers=["done"], bounds="2 packets (symbolic type, possibly empty), every fragmentation of the <=12 byte stream"),
+        [ob("VH_C20_recv_arbitrary", dict(K=k), pkg=UTIL, covers=["rejected"] + (["accepted"] if k != 1 else []), bounds="RecvMsg on every stream of 4 arbitrary length bytes + %d arbitrary payload bytes (incl. hostile lengths up to 2^32-1)" % k) for k in (0, 1, 2, 3)] +
+        [ob("VH_C20_recv_arbitrary", dict(K=4), T, pkg=UTIL, covers=["rejected", "accepted"], bounds="RecvMsg on every stream of 4 arbitrary length bytes + 4 arbitrary payload bytes"),
+         ob("VH_C20_framing", dict(D1=0, D2=0, ID=0), pkg=UTIL, covers=["done"], bounds="2 packets (symbolic type, possibly empty), every fragmentation of the <=12 byte stream"),
          ob("VH_C20_framing", dict(D1=1, D2=0, ID=0), T, pkg=UTIL, covers=["done"], bounds="2 packets (1 and 0 data bytes), every fragmentation"),
          ob("VH_C20_framing", dict(D1=0, D2=0, ID=1), T, pkg=UTIL, covers=["done"], bounds="2 packets with symbolic ids (1- and 5-byte varints), every fragmentation"),
+        ] + [
         ],
 )
 
